@@ -36,6 +36,9 @@ pub struct TCase {
     /// how many usage steps before the drop
     pub steps: u8,
     pub policy: Serve,
+    /// generated usage history executed after the fixed `steps` prefix and before the drop
+    #[serde(default)]
+    pub script: Vec<u8>,
 }
 
 /// A device that keeps everything posted to it (nothing completes), except that it answers
@@ -113,7 +116,11 @@ impl WithT for Run<'_> {
             ($what:expr, $e:expr) => {
                 match guard(|| $e) {
                     Caught::Ok(Ok(_)) => {}
-                    Caught::Ok(Err(_)) => out.op_errors += 1,
+                    Caught::Ok(Err(_)) => {
+                        if with(|w| w.hal.log.iter().any(|e| matches!(e, crate::hal::HalEv::AllocFailed { .. }))) {
+                            out.op_errors += 1
+                        }
+                    }
                     Caught::Panic(p) => return Err(format!("{} panicked: {}", $what, p.render())),
                     Caught::Escape(e) => return Err(format!("{}: {:?}", $what, e)),
                 }
@@ -139,12 +146,51 @@ impl WithT for Run<'_> {
                     step!("read_blocks_nb", unsafe { d.read_blocks_nb(i, &mut req, &mut buf, &mut resp) });
                     keep_blk.push((req, buf, resp));
                 }
+                // generated history: more requests, and polls for requests the device still holds
+                let mut toks: Vec<(u16, usize, bool)> = Vec::new();
+                for (i, &b) in c.script.iter().enumerate() {
+                    match b % 4 {
+                        0 | 1 => {
+                            let wr = b % 4 == 1;
+                            let mut req = Box::new(BlkReq::default());
+                            let mut buf = vec![i as u8; 512].into_boxed_slice();
+                            let mut resp = Box::new(BlkResp::default());
+                            let mut tok = None;
+                            step!("read/write_blocks_nb", {
+                                let r = if wr { unsafe { d.write_blocks_nb(i, &mut req, &buf, &mut resp) } } else { unsafe { d.read_blocks_nb(i, &mut req, &mut buf, &mut resp) } };
+                                tok = r.as_ref().ok().copied();
+                                r
+                            });
+                            keep_blk.push((req, buf, resp));
+                            if let Some(t) = tok {
+                                toks.push((t, keep_blk.len() - 1, wr));
+                            }
+                        }
+                        2 => {
+                            if let Some(&(t, k, wr)) = toks.get(b as usize / 4 % toks.len().max(1)) {
+                                let (req, buf, resp) = &mut keep_blk[k];
+                                step!("complete_*_blocks", if wr { unsafe { d.complete_write_blocks(t, req, buf, resp) } } else { unsafe { d.complete_read_blocks(t, req, buf, resp) } });
+                            }
+                        }
+                        _ => {
+                            let _ = guard(|| d.peek_used());
+                        }
+                    }
+                }
                 finish!(d);
             }
             D::Console => {
                 let mut d = construct!(VirtIOConsole::<LHal, T>::new(t));
                 for _ in 0..steps.min(3) {
                     step!("recv", d.recv(true));
+                }
+                for &op in c.script.iter() {
+                    match op % 4 {
+                        0 => step!("recv", d.recv(op & 4 != 0)),
+                        1 => step!("send", d.send(op)),
+                        2 => step!("ack_interrupt", d.ack_interrupt()),
+                        _ => step!("size", d.size()),
+                    }
                 }
                 finish!(d);
             }
@@ -163,12 +209,31 @@ impl WithT for Run<'_> {
                 if steps >= 4 {
                     step!("flush", d.flush());
                 }
+                for &op in c.script.iter() {
+                    match op % 5 {
+                        0 => step!("setup_framebuffer", d.setup_framebuffer().map(|_| ())),
+                        1 => step!("change_resolution", d.change_resolution(16 + (op as u32 / 5) * 4, 16).map(|_| ())),
+                        2 => {
+                            let img = vec![op; 64 * 64 * 4];
+                            step!("setup_cursor", d.setup_cursor(&img, 1, 2, 3, 4));
+                        }
+                        3 => step!("flush", d.flush()),
+                        _ => step!("move_cursor", d.move_cursor(op as u32, 7)),
+                    }
+                }
                 finish!(d);
             }
             D::Input => {
                 let mut d = construct!(VirtIOInput::<LHal, T>::new(t));
                 for _ in 0..steps.min(3) {
                     let _ = guard(|| d.pop_pending_event());
+                }
+                for &op in c.script.iter() {
+                    if op % 2 == 0 {
+                        let _ = guard(|| d.pop_pending_event());
+                    } else {
+                        let _ = guard(|| d.ack_interrupt());
+                    }
                 }
                 finish!(d);
             }
@@ -184,12 +249,69 @@ impl WithT for Run<'_> {
                     }
                     keep_bufs.push(b);
                 }
+                let mut rx: Vec<(u16, usize)> = Vec::new();
+                let mut tx: Vec<(u16, usize)> = Vec::new();
+                for &op in c.script.iter() {
+                    match op % 5 {
+                        0 => {
+                            let mut b = vec![0u8; 2048].into_boxed_slice();
+                            let mut tok = None;
+                            step!("receive_begin", {
+                                let r = unsafe { d.receive_begin(&mut b) };
+                                tok = r.as_ref().ok().copied();
+                                r
+                            });
+                            keep_bufs.push(b);
+                            if let Some(t) = tok {
+                                rx.push((t, keep_bufs.len() - 1));
+                            }
+                        }
+                        1 => {
+                            let mut b = vec![0u8; 2048].into_boxed_slice();
+                            let _ = d.fill_buffer_header(&mut b);
+                            let mut tok = None;
+                            step!("transmit_begin", {
+                                let r = unsafe { d.transmit_begin(&b[..100]) };
+                                tok = r.as_ref().ok().copied();
+                                r
+                            });
+                            keep_bufs.push(b);
+                            if let Some(t) = tok {
+                                tx.push((t, keep_bufs.len() - 1));
+                            }
+                        }
+                        2 => {
+                            if let Some(&(t, k)) = rx.get(op as usize / 5 % rx.len().max(1)) {
+                                step!("receive_complete", unsafe { d.receive_complete(t, &mut keep_bufs[k]) });
+                            }
+                        }
+                        3 => {
+                            if let Some(&(t, k)) = tx.get(op as usize / 5 % tx.len().max(1)) {
+                                step!("transmit_complete", unsafe { d.transmit_complete(t, &keep_bufs[k][..100]) });
+                            }
+                        }
+                        _ => {
+                            let _ = guard(|| (d.poll_receive(), d.poll_transmit()));
+                        }
+                    }
+                }
                 finish!(d);
             }
             D::Net => {
-                let d = construct!(VirtIONet::<LHal, T, 4>::new(t, 2048));
+                let mut d = construct!(VirtIONet::<LHal, T, 4>::new(t, 2048));
                 for _ in 0..steps.min(3) {
                     let _ = guard(|| d.can_recv());
+                }
+                for &op in c.script.iter() {
+                    match op % 3 {
+                        0 => {
+                            let _ = guard(|| d.can_recv());
+                        }
+                        1 => step!("receive", d.receive().map(|_| ())),
+                        _ => {
+                            let _ = guard(|| d.can_send());
+                        }
+                    }
                 }
                 finish!(d);
             }
@@ -218,6 +340,20 @@ impl WithT for Run<'_> {
                 for _ in 0..steps.min(3) {
                     step!("poll", m.poll());
                 }
+                for &op in c.script.iter() {
+                    let peer = VsockAddr { cid: 2, port: 9 + (op as u32 / 8) % 2 };
+                    match op % 6 {
+                        0 => step!("connect", m.connect(peer, 1234)),
+                        1 => step!("poll", m.poll()),
+                        2 => step!("send", m.send(peer, 1234, &[op; 24])),
+                        3 => step!("shutdown", m.shutdown(peer, 1234)),
+                        4 => step!("force_close", m.force_close(peer, 1234)),
+                        _ => {
+                            let mut b = [0u8; 16];
+                            step!("recv", m.recv(peer, 1234, &mut b));
+                        }
+                    }
+                }
                 finish!(m);
             }
             D::Sound => {
@@ -228,6 +364,42 @@ impl WithT for Run<'_> {
                 for _ in 1..steps.min(6) {
                     let frames = [7u8; 32];
                     step!("pcm_xfer_nb", d.pcm_xfer_nb(0, &frames));
+                }
+                // generated history: transfers and acknowledgements, also for transfers the device
+                // has not completed (in and out of submission order)
+                let mut toks: Vec<u16> = Vec::new();
+                for &op in c.script.iter() {
+                    match op % 6 {
+                        0 | 1 => {
+                            let frames = [op; 32];
+                            let mut tok = None;
+                            step!("pcm_xfer_nb", {
+                                let r = d.pcm_xfer_nb(0, &frames);
+                                tok = r.as_ref().ok().copied();
+                                r
+                            });
+                            if let Some(t) = tok {
+                                toks.push(t);
+                            }
+                        }
+                        2 | 3 => {
+                            if !toks.is_empty() {
+                                let k = if op % 6 == 2 { 0 } else { toks.len() - 1 };
+                                let t = toks[k];
+                                let mut ok = false;
+                                step!("pcm_xfer_ok", {
+                                    let r = d.pcm_xfer_ok(t);
+                                    ok = r.is_ok();
+                                    r
+                                });
+                                if ok {
+                                    toks.remove(k);
+                                }
+                            }
+                        }
+                        4 => step!("pcm_set_params", d.pcm_set_params(0, 64, 32, PcmFeatures::empty(), 2, PcmFormat::S16, PcmRate::Rate48000)),
+                        _ => step!("latest_notification", d.latest_notification()),
+                    }
                 }
                 finish!(d);
             }
@@ -318,12 +490,18 @@ pub fn run_one(c: &TCase) -> Result<(Outcome, u64), String> {
 }
 
 pub fn check(c: &TCase, st: &mut Stats) -> Result<(), String> {
-    let what = format!("{:?} on {:?} offered {:#x} fail={} steps={}", c.drv, c.kind, c.offered, c.fail, c.steps);
+    let what = format!("{:?} on {:?} offered {:#x} fail={} steps={} script={:?}", c.drv, c.kind, c.offered, c.fail, c.steps, c.script);
     let (out, calls) = run_one(c).map_err(|m| format!("{}: {}", what, m))?;
     let mut s = Sig::new();
     s.add(c.drv as u64).add(c.kind as u64).add(c.offered & 0x3_3000_0000).add(c.fail as u64).add(c.steps as u64);
+    for &b in &c.script {
+        s.add(b as u64 % 6);
+    }
+    if !c.script.is_empty() {
+        st.class("generated_usage_history");
+    }
     let fault_after_success = c.fail > 1 && (c.fail as u64) <= calls;
-    if fault_after_success || (c.fail == 0 && c.steps > 0) {
+    if fault_after_success || (c.fail == 0 && (c.steps > 0 || !c.script.is_empty())) {
         st.nontrivial(s.get(), || json!(c));
     }
     if c.fail != 0 && !out.constructed {
@@ -339,7 +517,7 @@ pub fn enumerate(steps_list: &[u8], flag_sets: &[u64]) -> Result<Vec<TCase>, Str
         for kind in ALL_TK {
             for &offered in flag_sets {
                 for &steps in steps_list {
-                    let base = TCase { drv, kind, offered, fail: 0, steps, policy: Serve::OnNotify };
+                    let base = TCase { drv, kind, offered, fail: 0, steps, policy: Serve::OnNotify, script: vec![] };
                     let (_, a) = run_one(&base).map_err(|m| format!("dry run {:?}: {}", base, m))?;
                     items.push(base.clone());
                     for k in 1..=a as u16 {
@@ -354,7 +532,8 @@ pub fn enumerate(steps_list: &[u8], flag_sets: &[u64]) -> Result<Vec<TCase>, Str
 }
 
 fn strategy() -> impl Strategy<Value = TCase> {
-    (0usize..11, 0usize..5, drv::feature_strategy(&[1, 2, 4, 1 << 5, 1 << 9, 1 << 16]), 0u16..12, 0u8..8, drv::serve_strategy()).prop_map(|(d, k, offered, fail, steps, policy)| TCase { drv: ALL_D[d], kind: ALL_TK[k], offered, fail, steps, policy })
+    (0usize..11, 0usize..5, drv::feature_strategy(&[1, 2, 4, 1 << 5, 1 << 9, 1 << 16]), 0u16..12, 0u8..8, drv::serve_strategy(), prop_oneof![1 => Just(vec![]), 3 => prop::collection::vec(any::<u8>(), 1..12)])
+        .prop_map(|(d, k, offered, fail, steps, policy, script)| TCase { drv: ALL_D[d], kind: ALL_TK[k], offered, fail, steps, policy, script })
 }
 
 pub fn replay(_e: &str, case: &serde_json::Value) -> Result<(), String> {
@@ -393,10 +572,10 @@ pub fn run(ctx: &Ctx) -> Report {
         failure,
         info: PartInfo {
             level: "fault_enumeration",
-            rule: "for each of the 11 constructors x {model, model-legacy, MMIO legacy, MMIO modern, PCI} x flag combinations x usage-script lengths: a dry run counts the DMA allocations A of construction + usage script (outstanding non-blocking block requests, posted net/console/input/vsock/sound buffers, GPU framebuffer, cursor and resolution change) + drop; then every k in 1..=A is failed in turn (exhaustive in k); proptest adds random feature sets, fault indices, script lengths and device policies. Oracle (ledger Hal + transport model): an injected failure surfaces as Err, never a panic; every DMA region is returned exactly once with its original (paddr, vaddr, pages) and none is live after drop; no queue memory is released while the device is live on that queue (DRIVER_OK set, queue enabled, no reset since) and no GPU backing while still attached. Non-trivial = a failure point with >=1 earlier successful allocation, or a fault-free drop with something still posted; distinct = (driver, transport, flags, k, steps).",
+            rule: "for each of the 11 constructors x {model, model-legacy, MMIO legacy, MMIO modern, PCI} x flag combinations x usage-script lengths: a dry run counts the DMA allocations A of construction + usage script (outstanding non-blocking block requests, posted net/console/input/vsock/sound buffers, GPU framebuffer, cursor and resolution change) + drop; then every k in 1..=A is failed in turn (exhaustive in k); proptest adds random feature sets, fault indices, script lengths, device policies and a generated usage history per driver (non-blocking block requests and early/out-of-order completion polls, raw-net begin/complete pairs for buffers the device still holds, console/socket/gpu/input/buffered-net operations, sound pcm_xfer_nb / pcm_xfer_ok for transfers the device has not completed, in and out of order) executed before the drop. Oracle (ledger Hal + transport model): an injected failure surfaces as Err, never a panic; every DMA region is returned exactly once with its original (paddr, vaddr, pages) and none is live after drop; no queue memory is released while the device is live on that queue (DRIVER_OK set, queue enabled, no reset since), no GPU backing while still attached, and (allocator interposer) no heap block that is still shared with the live device is freed. Non-trivial = a failure point with >=1 earlier successful allocation, or a fault-free drop with something still posted; distinct = (driver, transport, flags, k, steps).",
             assumptions: vec![
                 "a reset of the device (dropping the transport) counts as quiescing, as on both real transports".into(),
-                "release of heap buffers posted to the device is observed through the share ledger and queue memory, not through an allocator interposer".into(),
+                "release of heap buffers posted to the device is observed by the allocator interposer (a heap block freed while a range inside it is shared with a live device) in addition to the share ledger".into(),
             ],
             exhaustive: false,
             extra: json!({"enumerated_cases": n, "exhaustive_in_fault_index": true}),
